@@ -41,6 +41,7 @@ func Spec() *run.Spec {
 		Assumptions: []string{
 			"well-formed = ref.WF: all attribute arrays of all arities share one length L, every index in [0,L), index count a multiple of 3 (triangles) / 4 (quads)",
 			"arguments supplied by the harness are admissible: attribute data of the common length, index lists in range, copy sources with the same vertex count; attributes are only deleted when another attribute still carries the vertices",
+			"every mesh a case obtains (inputs and all results) is kept and re-checked (WF + accessor sweep) after every later call of the case: a result has to stay well-formed, not only be well-formed on return",
 			"a panic whose value is a Go runtime.Error is a violation; error values and panic(error|string) are reported failures",
 			"ClearAttributeData is a building block (its bare result keeps indices without vertices by definition): it is checked completed by SetFloat3Attribute; its bare result is only counted",
 			"SplitOnUniqueMaterials receives material ranges that may or may not cover the primitives (Append of a material-less mesh, face removal) but never a nil *Material",
@@ -232,10 +233,66 @@ func applyChain(c *run.Ctx, res *run.Result, r *rand.Rand, cur modeling.Mesh, in
 		o, _ := gen.Mesh(r, gen.MeshOpts{Topologies: []modeling.Topology{t}, AllowEmpty: true, Materials: true, MaxVerts: 24})
 		return o
 	}}
-	return applyChainEnv(c, res, r, cur, inputDesc, inputW, nOps, env, choose)
+	okOps, names, _ = applyChainEnv(c, res, r, cur, inputDesc, inputW, nOps, env, choose, nil)
+	return
 }
 
-func applyChainEnv(c *run.Ctx, res *run.Result, r *rand.Rand, cur modeling.Mesh, inputDesc string, inputW map[string]any, nOps int, env *ops.Env, choose func(cur modeling.Mesh) ops.Op) (okOps int, names []string) {
+// keeper holds every mesh a case has obtained so far. After every later call all of them are
+// checked again: a result must stay well-formed for as long as the caller keeps it, not only
+// at the moment it is returned (results that alias pooled or shared scratch storage only go
+// bad when a LATER call reuses that storage).
+type keeper struct {
+	kept   []keptRes
+	wfOnly bool                     // large meshes: skip the accessor sweep on re-checks
+	only   func(opName string) bool // nil = keep every result
+}
+
+type keptRes struct {
+	m      modeling.Mesh
+	origin string
+}
+
+func (k *keeper) add(m modeling.Mesh, origin, opName string) {
+	if k.only == nil || opName == "" || k.only(opName) {
+		k.kept = append(k.kept, keptRes{m, origin})
+	}
+}
+
+// recheck returns false after reporting a violation.
+func (k *keeper) recheck(res *run.Result, opName, desc string, witness func() map[string]any) bool {
+	for i, kr := range k.kept {
+		res.Count("kept_results_rechecked", 1)
+		var e error
+		p := run.Try(func() { e = ref.WF(kr.m) })
+		msg := ""
+		switch {
+		case p != nil:
+			msg = "re-reading it panics: " + p.Value
+		case e != nil:
+			msg = e.Error()
+		case !k.wfOnly:
+			if ap := accessorSweep(kr.m); ap != nil {
+				msg = "reading it through the primitive accessors panics: " + ap.Value
+			}
+		}
+		if msg != "" {
+			w := witness()
+			w["earlier_result"] = meshWitness(kr.m)
+			w["earlier_result_origin"] = kr.origin
+			res.Violate("earlier-result-no-longer-well-formed", opName, "mesh kept alive across later calls",
+				fmt.Sprintf("after %s, mesh #%d of this case (%s), which was well-formed when it was obtained, is not any more: %s", desc, i, kr.origin, msg), w)
+			return false
+		}
+	}
+	return true
+}
+
+func applyChainEnv(c *run.Ctx, res *run.Result, r *rand.Rand, cur modeling.Mesh, inputDesc string, inputW map[string]any, nOps int, env *ops.Env, choose func(cur modeling.Mesh) ops.Op, keep *keeper) (okOps int, names []string, last modeling.Mesh) {
+	if keep == nil {
+		keep = &keeper{}
+		keep.add(cur, "the input", "")
+	}
+	defer func() { last = cur }()
 	var steps []stepRec
 	witness := func() map[string]any {
 		return map[string]any{"input": inputW, "input_desc": inputDesc, "steps": steps}
@@ -250,6 +307,15 @@ func applyChainEnv(c *run.Ctx, res *run.Result, r *rand.Rand, cur modeling.Mesh,
 		var err error
 		p := run.Try(func() { outs, err = call.Run() })
 		st := stepRec{Op: op.Name, Desc: call.Desc}
+		if p == nil || !p.Runtime {
+			if !keep.recheck(res, op.Name, call.Desc, func() map[string]any {
+				w := witness()
+				w["steps"] = append(append([]stepRec{}, steps...), st)
+				return w
+			}) {
+				return
+			}
+		}
 		if p != nil {
 			st.Out = "panic: " + p.Value
 			steps = append(steps, st)
@@ -308,6 +374,7 @@ func applyChainEnv(c *run.Ctx, res *run.Result, r *rand.Rand, cur modeling.Mesh,
 				return
 			}
 			good = append(good, o)
+			keep.add(o, fmt.Sprintf("result %d of step %d: %s %s", k, len(steps), op.Name, call.Desc), op.Name)
 		}
 		if op.Kind != ops.Observe {
 			okOps++
@@ -366,7 +433,8 @@ func opsFor(kindOK func(ops.Op) bool) []ops.Op {
 	return out
 }
 
-var deriving = opsFor(func(o ops.Op) bool { return o.Kind == ops.Derive })
+// the non-finite value class belongs to C01 (C02 states nothing about values)
+var deriving = opsFor(func(o ops.Op) bool { return o.Kind == ops.Derive && o.Group != "special" })
 
 func chains(c *run.Ctx) run.Result {
 	var res run.Result
@@ -413,7 +481,50 @@ func pointFilters(c *run.Ctx) run.Result {
 	var res run.Result
 	r := c.Rng
 	pat := pointPatterns[c.Case%len(pointPatterns)]
-	m, d := gen.Mesh(r, gen.MeshOpts{Topologies: []modeling.Topology{modeling.PointTopology}, IndexPatterns: []string{pat}, MaxVerts: 30, MinVerts: 1,
+	// two clouds of different size, filtered alternately: storage that a filter keeps for reuse
+	// (scratch lists, pools) is rewritten by the call on the OTHER cloud, and every result of both
+	// lineages stays alive and is re-checked after every call
+	a, d := filterInput(r, pat, 1, 30)
+	b, db := filterInput(r, pointPatterns[r.Intn(len(pointPatterns))], 12, 90)
+	for _, m := range []modeling.Mesh{a, b} {
+		if e := ref.WF(m); e != nil {
+			res.Inconclusive = "reason: input construction ill-formed: " + e.Error()
+			return res
+		}
+	}
+	choose := func(cur modeling.Mesh) ops.Op { return filterOps[r.Intn(len(filterOps))] }
+	env := &ops.Env{Valid: r.Intn(8) != 0, Other: func(r *rand.Rand, like modeling.Mesh) modeling.Mesh { return like }}
+	keep := &keeper{}
+	keep.add(a, "input A "+d.Sig(), "")
+	keep.add(b, "input B "+db.Sig(), "")
+	cur := [2]modeling.Mesh{a, b}
+	w := meshWitness(a)
+	w["second_input"] = meshWitness(b)
+	okOps, names := 0, []string{}
+	for s, n := 0, 2+r.Intn(5); s < n && len(res.Violations) == 0; s++ {
+		l := r.Intn(2)
+		ok, nm, last := applyChainEnv(c, &res, r, cur[l], d.Sig()+" / "+db.Sig(), w, 1, env, choose, keep)
+		okOps += ok
+		for _, x := range nm {
+			names = append(names, fmt.Sprintf("%c:%s", 'A'+l, x))
+		}
+		// a filter that removed everything leaves nothing to filter: restart that lineage from its input
+		if lv, _ := ops.AttrInfo(last); lv == 0 {
+			last = [2]modeling.Mesh{a, b}[l]
+		}
+		cur[l] = last
+	}
+	res.SetAdd("filter_index_patterns", pat)
+	res.Count("filter_cases", 1)
+	res.Nontrivial = !d.Identity && okOps >= 2
+	res.Sig = "filters|" + d.Sig() + "|" + strings.Join(names, ">")
+	res.Sample = map[string]any{"input": d.Sig(), "second_input": db.Sig(), "ops": names}
+	return res
+}
+
+// filterInput: a point cloud of the given index pattern carrying every attribute the filters look at.
+func filterInput(r *rand.Rand, pat string, minV, maxV int) (modeling.Mesh, gen.MeshDesc) {
+	m, d := gen.Mesh(r, gen.MeshOpts{Topologies: []modeling.Topology{modeling.PointTopology}, IndexPatterns: []string{pat}, MaxVerts: maxV, MinVerts: minV,
 		V1Names: []string{"userV1", modeling.OpacityAttribute}, V3Names: []string{modeling.NormalAttribute, modeling.ScaleAttribute, "userV3"}})
 	L, _ := ops.AttrInfo(m)
 	// make sure every arity is present so that each filter finds its attribute
@@ -446,18 +557,7 @@ func pointFilters(c *run.Ctx) run.Result {
 	if need4 {
 		m = m.CopyFloat4Attribute(m.SetFloat4Attribute("userV4", gen4(r, L)), "userV4")
 	}
-	if e := ref.WF(m); e != nil {
-		res.Inconclusive = "reason: input construction ill-formed: " + e.Error()
-		return res
-	}
-	choose := func(cur modeling.Mesh) ops.Op { return filterOps[r.Intn(len(filterOps))] }
-	okOps, names := applyChain(c, &res, r, m, d.Sig(), meshWitness(m), 1+r.Intn(3), r.Intn(8) != 0, choose)
-	res.SetAdd("filter_index_patterns", pat)
-	res.Count("filter_cases", 1)
-	res.Nontrivial = !d.Identity && okOps >= 1
-	res.Sig = "filters|" + d.Sig() + "|" + strings.Join(names, ">")
-	res.Sample = map[string]any{"input": d.Sig(), "ops": names}
-	return res
+	return m, d
 }
 
 var edgeClasses = []string{"empty", "vertices-without-indices", "single-primitive", "no-position", "uncovered-materials", "one-arity-only", "zero-length-attributes", "ordinary"}
@@ -563,7 +663,7 @@ func edgeInputs(c *run.Ctx) run.Result {
 		return edgeReceiver(r, like.Topology(), edgeClasses[r.Intn(len(edgeClasses))])
 	}}
 	before := len(res.Violations)
-	applyChainEnv(c, &res, r, m, res.Sig, meshWitness(m), 1+r.Intn(2), env, func(cur modeling.Mesh) ops.Op { return op })
+	applyChainEnv(c, &res, r, m, res.Sig, meshWitness(m), 1+r.Intn(2), env, func(cur modeling.Mesh) ops.Op { return op }, nil)
 	res.Count("edge_combinations", 1)
 	res.SetAdd("edge_classes", class)
 	res.Nontrivial = len(res.Violations) == before
